@@ -16,6 +16,9 @@ CFG = {
         "Swat4.C14.remove_other_key",
         "Swat4.C14.remove_keyed",
         "Swat4.C14.C14_race",
+        "Swat4.C14.guard_drops_refreshed",
+        "Swat4.C14.C14_window",
+        "Swat4.C14.cleanServers2_shape",
         "Swat4.C14.refreshed_not_scanned",
         "Swat4.C14.clean_instances_count",
     ],
@@ -25,7 +28,7 @@ CFG = {
             "status, server cleanup, instance cleanup) with clock steps landing at a liveness/retention boundary and +-256ns, liveness and retention "
             "from 1s..2h, each use case started when scheduled; (race) 1..4 servers reported long ago, one real cleanup pass interleaved at "
             "repository-call granularity with one re-report or keepalive of one of them placed after the pass's k-th call (before the scan, "
-            "between scan and delete, between deletes), retention boundary at +0/+256/+512ns; compared: repository calls, results, keyspace; "
+            "between scan and delete, between deletes) or after the FIRST STORAGE COMMAND of the scan (between the index read and the record fetch), retention boundary at +0/+256/+512ns; compared: repository calls, results, keyspace; "
             "oracle: an independent bookkeeping simulator (exists / last refresh / last write per address) for listings and removals, and "
             "'the refreshed server survives, the stale ones are removed' for races",
     "assumptions": [
@@ -38,7 +41,7 @@ CFG = {
         "text": "Lean theorems: listed_iff_live (a listing is exactly status AND refreshedAt >= now - liveness, with no dependence on cleanup), "
                 "scan_selects_stale (the pass scans exactly updatedAt < cutoff), C14_race (for every list of scanned copies, a server whose stored "
                 "record is newer than the scanned copy and refreshed after the cutoff is still stored unchanged after the whole pass — the refresh may "
-                "commit between scan and delete), refreshed_not_scanned (a refresh before the scan keeps it out of the scan), remove_erases_unchanged, "
+                "commit between scan and delete), C14_window (a refresh committing between the scan's index read and its record fetch: the repaired guard drops the fetched copy), refreshed_not_scanned (a refresh before the scan keeps it out of the scan), remove_erases_unchanged, "
                 "clean_instances_count. Tied to listservers.go, servercleaner.go, instancecleaner.go by sequential histories on a fake clock with "
                 "boundary-aligned steps and by all placements of one refresh among the cleanup pass's repository calls.",
         "level_note": "Trusted: Lean kernel (propext, Quot.sound, Classical.choice); atomic repository calls (C09/C11); Prog models of the cleaners and "
